@@ -24,7 +24,7 @@ def cli_getset(case, profile):
     exe = ragc_bin(profile)
     d = tempfile.mkdtemp(prefix="ragc-cli-")
     try:
-        names = ["a1", "a2", "b"]
+        names = ["a1", "b", "a2"]
         files = []
         for nm, seq in zip(names, case["seqs"]):
             p = os.path.join(d, nm + ".fa")
